@@ -80,15 +80,57 @@ Proof.
   - rewrite forallb_forall in H2. apply Forall_forall. intros e He. apply cond_agreesb_sound, H2, He.
 Qed.
 
-Lemma row_okb_sound cr : row_okb cr = true -> row_ok cr /\ reads_same cr /\ cr_uuid cr = [].
+(* ---------------------------------------------------------------- the invented names of a sheet *)
+Lemma gnameb_other bases : gnameb bases s_Other = true.
+Proof. unfold gnameb. rewrite str_eqb_refl. reflexivity. Qed.
+
+Definition sheet_names (rows : list crow) : GenNames :=
+  {| gname := fun n => gnameb (sheet_bases rows) n = true; gname_other := gnameb_other _ |}.
+
+Lemma alts_length k : length (alts k) = 4 * k.
+Proof. induction k as [|k IH]; cbn [alts]; [reflexivity|]. rewrite app_length, IH. cbn. lia. Qed.
+
+Lemma gnameb_base bases b k : In b bases -> gnameb bases (b ++ alts k) = true.
 Proof.
-  unfold row_okb, row_ok. intros H. apply andb_true_iff in H as [H H3]. apply andb_true_iff in H as [H H2]. apply andb_true_iff in H as [H0 H1].
+  intros Hin. unfold gnameb. apply orb_true_iff. right. apply existsb_exists. exists b. split; [exact Hin|].
+  apply existsb_exists. exists k. split; [|apply str_eqb_refl].
+  apply in_seq. rewrite app_length, alts_length. lia.
+Qed.
+
+Lemma sheet_bases_in rows cr e b :
+  In cr rows -> In e (r_edges (cr_row cr)) -> In b (cond_bases (e_cond e)) -> In b (sheet_bases rows).
+Proof.
+  intros H1 H2 H3. unfold sheet_bases. apply in_flat_map. exists cr. split; [exact H1|].
+  apply in_flat_map. exists e. split; [exact H2|exact H3].
+Qed.
+
+(* every condition of the sheet gets a name of the sheet's invented names *)
+Lemma gen_ok_sheet rows cr e : In cr rows -> In e (r_edges (cr_row cr)) -> @gen_ok (sheet_names rows) (e_cond e).
+Proof.
+  intros H1 H2 k. unfold sheet_names. cbn [gname].
+  split; apply gnameb_base; eapply sheet_bases_in; eauto; unfold cond_bases; [left|right; left]; reflexivity.
+Qed.
+
+Lemma edge_okb_sound rows cr e :
+  In cr rows -> In e (r_edges (cr_row cr)) -> edge_okb (sheet_bases rows) e = true ->
+  match c_cname (e_cond e) with [] => @gen_ok (sheet_names rows) (e_cond e) | nm => ~ @gname (sheet_names rows) nm /\ nm <> s_NoResponse end.
+Proof.
+  intros H1 H2. unfold edge_okb. destruct (c_cname (e_cond e)) as [|a nm] eqn:En; [intros _; eapply gen_ok_sheet; eauto|].
+  intros H. apply andb_true_iff in H as [Ha Hb]. split.
+  - unfold sheet_names. cbn [gname]. intros Hg. rewrite Hg in Ha. discriminate.
+  - intros E. rewrite E, str_eqb_refl in Hb. discriminate.
+Qed.
+
+Lemma row_okb_sound rows cr :
+  In cr rows -> row_okb (sheet_bases rows) cr = true -> @row_ok (sheet_names rows) cr /\ reads_same cr /\ cr_uuid cr = [].
+Proof.
+  intros Hin. unfold row_okb, row_ok. intros H. apply andb_true_iff in H as [H H3]. apply andb_true_iff in H as [H H2]. apply andb_true_iff in H as [H0 H1].
   apply edges_agreeb_sound in H0 as [Hsame Hargs].
   assert (Hu : cr_uuid cr = []) by (destruct (cr_uuid cr); [reflexivity|discriminate]).
   split; [|split; [exact Hsame|exact Hu]]. split.
-  - rewrite forallb_forall in H1. rewrite Forall_forall in Hargs. apply Forall_forall. intros e He. specialize (H1 e He). unfold edge_okb in H1.
-    unfold edge_ok, cond_ok. destruct (Hargs e He) as [Ha Hb].
-    destruct (c_cname (e_cond e)); [auto|discriminate].
+  - rewrite forallb_forall in H1. rewrite Forall_forall in Hargs. apply Forall_forall. intros e He. specialize (H1 e He).
+    unfold edge_ok, cond_ok. destruct (Hargs e He) as [Ha Hb]. split; [exact Ha|]. split; [exact Hb|].
+    apply (edge_okb_sound rows cr e Hin He H1).
   - destruct (r_type (cr_row cr)) as [cls acts dec0| | | | | |]; try exact I.
     destruct (r_node_name (cr_row cr)); [|discriminate]. rewrite Hu in H3.
     apply andb_true_iff in H3 as [H3 H6]. apply andb_true_iff in H3 as [H4 H5].
@@ -123,12 +165,13 @@ Proof.
     + intros c H. apply cond_agreesb_sound. unfold cond_agreesb. rewrite H. apply orb_true_r.
 Qed.
 
-Theorem fragb_sound rows : fragb rows = true -> Forall row_ok rows /\ Forall reads_same rows /\ no_given rows /\ starts_with_node rows.
+Theorem fragb_sound rows :
+  fragb rows = true -> Forall (@row_ok (sheet_names rows)) rows /\ Forall reads_same rows /\ no_given rows /\ starts_with_node rows.
 Proof.
   unfold fragb. intros H. apply andb_true_iff in H as [H1 H2]. rewrite forallb_forall in H1. split; [|split; [|split]].
-  - apply Forall_forall. intros cr Hcr. apply row_okb_sound, H1, Hcr.
-  - apply Forall_forall. intros cr Hcr. apply row_okb_sound, H1, Hcr.
-  - intros cr Hcr. apply row_okb_sound, H1, Hcr.
+  - apply Forall_forall. intros cr Hcr. apply (row_okb_sound rows cr Hcr), H1, Hcr.
+  - apply Forall_forall. intros cr Hcr. apply (row_okb_sound rows cr Hcr), H1, Hcr.
+  - intros cr Hcr. apply (row_okb_sound rows cr Hcr), H1, Hcr.
   - unfold starts_with_node. destruct rows as [|cr r]; [exact I|]. destruct (r_type (cr_row cr)); try discriminate. exact I.
 Qed.
 
@@ -141,5 +184,6 @@ Theorem compile_refines_rowsem_fragb fresh validate name rows f ref :
   (forall t, FlowFacts.traces ref t -> exists t', FlowFacts.traces f t' /\ Forall2 (ematch sexp SexpEq.smatch) t t')
   /\ (forall t, FlowFacts.traces f t -> exists t', FlowFacts.traces ref t' /\ Forall2 (ematch sexp (fun a b => SexpEq.smatch b a)) t t').
 Proof.
-  intros Hi Hs Hv Hfr. destruct (fragb_sound rows Hfr) as (H1 & H2 & H3 & H4). eapply compile_refines_rowsem_partial; eauto.
+  intros Hi Hs Hv Hfr. destruct (fragb_sound rows Hfr) as (H1 & H2 & H3 & H4).
+  eapply (@compile_refines_rowsem_partial (sheet_names rows)); eauto.
 Qed.
